@@ -120,6 +120,9 @@ def floorDivE (a b : Int) : Except Err Int :=
 def floorModE (a b : Int) : Except Err Int :=
   if b = 0 then .error (.other "ZeroDivisionError") else .ok (Int.fmod a b)
 
+/-- `np.int8(x)`: the value as a signed byte (two's complement wrap-around); the identity on -128 … 127 -/
+def pyInt8 (x : Int) : Int := Int.fmod (x + 128) 256 - 128
+
 /-- `a.argmin()` / `a.argmax()`: position of the FIRST minimum / maximum; ValueError on an empty array -/
 def argBestFrom (better : Int → Int → Bool) : List Int → (i : Nat) → (best : Int) → (bestIdx : Nat) → Nat
   | [], _, _, bi => bi
